@@ -19,6 +19,7 @@ sys.path.insert(0, str(VERIF / 'translators'))
 import rtlblk2coq
 
 IMPORTS = 'Base.Prelude Bits.BitsSpec RTL.Syntax RTL.Eval Sched.Accept RTL.Footprint'
+CERT_IMPORTS = IMPORTS + ' RTL.Design RTL.RtlFixed'
 DEFS = '''
 (* inputs (packed value of every signal), expected packed values of the written signals, did python raise *)
 Definition sample := (list Z * list (nat * Z) * bool)%type.
@@ -46,10 +47,26 @@ Definition design_stats (c : sigshapes * list (list stmt * fp * fp)) : list Z :=
                 | [a1; a2; a3; a4] => [a1 + fp_bits G n (reads_d G b); a2 + fp_bits G n rdD; a3 + fp_bits G n (writes_d G b); a4 + fp_bits G n wrD]
                 | _ => acc end) [0; 0; 0; 0] bs.
 '''
+CERT_DEFS = '''
+(* the certificate of C01_rtl_accepted_schedule_fixed_point for one design: shapes, the design with the DECLARED footprints of
+   its combinational blocks, their translated bodies.  0 = certificate holds; otherwise the failing parts:
+   1 shapes / wf_design / sw_ok   2 nsl_ok   4 noinv_ok   8 declared footprints do not cover the proved ones
+   16 a block uses <<=            32 latch (a bit that may be written is not definitely written)
+   64 an exposed read is not a declared read *)
+Definition cert_code (c : sigshapes * design * list (list stmt)) : nat :=
+  let '(T, d, bs) := c in let G := decls_of T in let progs := fun i => nth i bs [] in
+  ((if wf_shapes T && wf_design d && sw_ok d then 0 else 1) + (if nsl_ok d then 0 else 2) + (if noinv_ok d then 0 else 4) +
+   (if rtl_cover_ok G progs d then 0 else 8) +
+   (if forallb (fun i => assigns_ok true (progs i)) (ids d) then 0 else 16) +
+   (if forallb (fun i => no_latch G (progs i)) (ids d) then 0 else 32) +
+   (if forallb (fun i => xcovers (rds d i) (xreads_d G (progs i))) (ids d) then 0 else 64))%nat.
+'''
 
 class _State:
   def __init__(s):
     s.cases, s.stat_cases, s.meta = [], [], []
+    s.cert_cases, s.cert_names = [], []
+    s.comb_partly_outside = 0
     s.total = s.inlang = s.user_total = s.user_inlang = s.samples = 0
     s.reasons = {}
 
@@ -75,6 +92,7 @@ def check_blocks(ctx, top, fp, src, name, trials=3):
   saved = sc.save_state(top)
   blocks = list(fp.comb) + list(fp.ff)
   bcases, scases, bmeta = [], [], []
+  comb_terms = {}
   try:
     for b in blocks:
       gen = b in top._dag.genblks
@@ -89,6 +107,7 @@ def check_blocks(ctx, top, fp, src, name, trials=3):
         continue
       st.inlang += 1
       if not gen: st.user_inlang += 1
+      if b in fp.cid: comb_terms[b] = r.term
       ctx.count((name, b.__name__, r.term), True, cls=f'rtl-block:{kind}:in-language')
       samples = []
       for t in range(trials):
@@ -118,6 +137,12 @@ def check_blocks(ctx, top, fp, src, name, trials=3):
   finally:
     sc.restore_state(saved)
   T = tr.shapes_term()
+  # the fixed-point certificate needs every combinational block of the design inside the language
+  if len(comb_terms) == len(fp.comb):
+    st.cert_cases.append(f'({T}, {fp.design_term()}, {coq_list([comb_terms[b] for b in fp.comb])})')
+    st.cert_names.append(name)
+  else:
+    st.comb_partly_outside += 1
   st.cases.append(f'({T}, {coq_list(bcases)})')
   st.stat_cases.append(f'({T}, {coq_list(scases)})')
   st.meta.append({'design': name, 'source': src, 'signals': names, 'shapes': T, 'blocks': bmeta})
@@ -279,6 +304,24 @@ def finish(ctx, stats=True, shard=20):
     out['bits'] = {'proved_reads': tot[0], 'declared_reads': tot[1], 'proved_writes': tot[2], 'declared_writes': tot[3],
                    'read_overapprox_factor': round(tot[1] / tot[0], 3) if tot[0] else None,
                    'write_overapprox_factor': round(tot[3] / tot[2], 3) if tot[2] else None}
+  # statistic only (pymtl3 allows latches): on how many designs the certificate of C01_rtl_accepted_schedule_fixed_point holds
+  if st.cert_cases:
+    def cert(k):
+      part = st.cert_cases[k:k + 20]
+      return _nats(ctx.coq_eval(f'rtlcert{k}', CERT_IMPORTS, CERT_DEFS, ['map cert_code ' + coq_list(part)])[0])
+    codes = []
+    with ThreadPoolExecutor(max_workers=8) as ex:
+      for c in ex.map(cert, range(0, len(st.cert_cases), 20)): codes += c
+    why = {}
+    for bit, what in ((1, 'wf/single-writer'), (2, 'self-loop (nsl_ok)'), (4, 'inverted explicit constraint'), (8, 'footprint not covered'),
+                      (16, '<<= in a combinational block'), (32, 'latch'), (64, 'exposed read not declared')):
+      n = sum(1 for c in codes if c & bit)
+      if n: why[what] = n
+    out['fixed_point_certificate'] = {'designs_with_all_comb_blocks_in_language': len(st.cert_cases),
+                                      'designs_with_a_comb_block_outside': st.comb_partly_outside,
+                                      'certificate_holds': sum(1 for c in codes if c == 0), 'evaluated': len(codes),
+                                      'failing_parts': why,
+                                      'failing_designs': [n for n, c in zip(st.cert_names, codes) if c][:10]}
   ctx.extra['rtl_footprints'] = out
   if st.meta and st.meta[0]['blocks']:
     b0 = st.meta[0]['blocks'][0]
